@@ -68,6 +68,8 @@ CALC_BATTERY = [
     ["fasta_seq", "aa", "AVGKLR"],
     ["fasta_seq", "dna", "ACGT"],
     ["formula_methods", "Ni[58]{2+}SO4", 3.7],
+    ["iadd", "C2H6O", "hill"],
+    ["iadd", "C2H6O", "replace"],
     ["show_table", "Au2Co", 2.0],
     ["emission_table"],
     ["list", ["symbol", "K_alpha"], "%s %.4f"],
@@ -373,6 +375,29 @@ class Node(object):
             f = self._formula(tbl, s, density)
             return canon([f.neutron_sld(wavelength=4.75), f.xray_sld(energy=8.04), f.natural_mass_ratio(),
                           f.molecular_mass, sorted(str(k) for k in f.mass_fraction)])
+        if which == "iadd":
+            # formula algebra on a formula the caller obtained from another one (Hill form, isotope
+            # substitution, a copy, a biomolecule): += must not reach back into where it came from
+            s, source = a
+            if source == "hill":
+                base = self._formula(tbl, s).hill
+            elif source == "replace":
+                base = self._formula(tbl, s).replace(t.H, t.D)
+            elif source == "copy":
+                base = pt.formula(self._formula(tbl, s).hill)
+            elif source == "fasta":
+                fasta = self.module("periodictable.fasta")
+                base = pt.formula(fasta.Sequence("verif", "AVGK", type="aa").natural_formula)
+            elif source == "lipid":
+                fasta = self.module("periodictable.fasta")
+                base = pt.formula(fasta.LIPIDS["DMPC"].natural_formula)
+            else:
+                raise ValueError(source)
+            before = base.mass
+            g = pt.formula(base)
+            g += 3 * pt.formula("H2O")
+            twice = 2 * g
+            return canon([before, g.mass, twice.mass, base.mass, str(g)])
         if which == "show_table":
             s, mass = a[:2]
             act = self.module("periodictable.activation")
